@@ -7,7 +7,7 @@ class C01(CoreProp):
     id = "C01"
     prop_module = "Props.C01"
     prop_file = "Props/C01.v"
-    coq_targets = ["Props/C01.vo", "Run/Judge_Core.vo"]
+    coq_targets = ["Props/C01.vo", "Run/Judge_Core.vo", "Props/Tables.vo"]
     sizes = {"quick": 600, "thorough": 20000}
     design_ref = "DESIGN.md section 6/C01"
     rule = ("typed random expression trees over data variables, literals and var-declared variables (80% inside the "
